@@ -67,7 +67,7 @@ def make_case(rng):
     for _ in range(rng.randint(1, 4)):
         if rng.random() < 0.25 and 'DICT' not in seen:
             seen.add('DICT')
-            keys = rng.sample(NAMES + ['new1'], rng.randint(0, 3))
+            keys = rng.sample(NAMES + ['new1', 'data-\u00e6\u00f8\u00e5', '@click', 'x-on:y.z'], rng.randint(0, 3))
             dvals = {k: VALUES[rng.choice(['None', 'empty', 'zero', 'True', 'False', 'str', 'hostile'])][1] for k in keys}
             entries.append(('DICT', None))
             continue
